@@ -38,7 +38,13 @@ RULE = ('function specs kind in {lin, aff, cubic(flat root), sat(urating), kink,
         'including data located at 100 and 1e4, both solvers, probabilities that are exact float32 numbers handed over '
         'as float64 / float32 / float16 arrays, np.float32 / np.float64 scalars, 0-d arrays (Python floats and lists '
         'are not accepted by the code: counted), reference roots by scipy brentq on cdf(x) - u with u converted exactly '
-        'to float64; a failure that disappears with float64 U gets kde.percent_point:<method>:<representation>-U:<what>')
+        'to float64; a failure that disappears with float64 U gets kde.percent_point:<method>:<representation>-U:<what>. '
+        'Object-state histories of ONE GaussianKDE (tie and quick search): fit(A) -> percent_point (both solvers) -> '
+        'fit(B) with B shifted up / down by 8..60 spreads, 20..200 times wider, 20..200 times narrower, inside, same '
+        'size -> percent_point, and the states from_dict / pickle / get_instance clone / restored-used-refitted, each '
+        'compared (bit for bit or within twice the solver tolerance, never raising) with a FRESH model fitted on the '
+        'data the instance holds; classes kde.percent_point:<method>:depends-on-fit-history and '
+        ':depends-on-state:<state>')
 PARTIAL = ['chandrupatla_converges_partial: termination of every lane within the iteration cap is not a theorem '
            '(the IQI step has no proved rate); proved instead: success, containment, sign bracket, smaller-|f| end, '
            'exact zero when fm == 0, a root within |a-b| of the result. The cap is exercised by the tie; the search '
@@ -858,15 +864,20 @@ def kde_variant_inputs(variant, u64):
 
 
 def kde_oracle(name, data, u64, variants=KDE_VARIANTS, count=None):
+    """`kde_model_oracle` on a FRESH GaussianKDE fitted on `data`."""
+    from copulas.univariate import GaussianKDE
+    kde = GaussianKDE()
+    kde.fit(data)
+    return kde_model_oracle(kde, name, u64, variants, count)
+
+
+def kde_model_oracle(kde, name, u64, variants=KDE_VARIANTS, count=None):
     """C18 through GaussianKDE.percent_point: for both solvers and every representation of the probabilities,
     every lane comes back inside the bracket and within the property's tolerance of the root of cdf(x) - u
     (reference: scipy brentq on the same function with u converted exactly to float64), 0 / 1 map to -inf / +inf,
     the output has the shape of the input, a lane solved alone agrees with the lane in the batch.
     Returns a list of (class suffix, detail)."""
     from scipy.optimize import brentq
-    from copulas.univariate import GaussianKDE
-    kde = GaussianKDE()
-    kde.fit(data)
     lower, upper = (float(v) for v in kde._get_bounds())
     width = upper - lower
     inner = (u64 > 1e-6) & (u64 < 1 - 1e-6)
@@ -952,9 +963,130 @@ def kde_oracle(name, data, u64, variants=KDE_VARIANTS, count=None):
     return out
 
 
+HISTORIES = ('shifted-up', 'shifted-down', 'much-wider', 'much-narrower', 'inside', 'same-size-shifted')
+
+
+def kde_history_data(nprng, how):
+    """(A, B): the data of the first and of the second fit of ONE instance."""
+    loc = float(nprng.choice([0.0, 100.0, -40.0, 1e4]))
+    sd = float(nprng.choice([0.5, 1.0, 7.0]))
+    A = nprng.normal(loc, sd, int(nprng.choice([20, 40, 60])))
+    nB = len(A) if how == 'same-size-shifted' else int(nprng.choice([15, 40, 90]))
+    if how in ('shifted-up', 'same-size-shifted'):
+        B = nprng.normal(loc + sd * nprng.uniform(8, 60), sd, nB)
+    elif how == 'shifted-down':
+        B = nprng.normal(loc - sd * nprng.uniform(8, 60), sd, nB)
+    elif how == 'much-wider':
+        B = nprng.normal(loc, sd * nprng.uniform(20, 200), nB)
+    elif how == 'much-narrower':
+        B = nprng.normal(loc + sd * nprng.uniform(-1, 1), sd / nprng.uniform(20, 200), nB)
+    else:
+        B = nprng.normal(loc, sd * 0.8, nB)
+    return A, B
+
+
+def _seeded(seed, fn):
+    """run fn with numpy's global generator seeded (a re-fit of a used GaussianKDE resamples through it -
+    recorded under C19) and restore the generator afterwards."""
+    st = np.random.get_state()
+    np.random.seed(seed)
+    try:
+        return fn()
+    finally:
+        np.random.set_state(st)
+
+
+def kde_history_oracle(A, B, u64, how, seed=0, count=None):
+    """object-state histories of ONE GaussianKDE: fit(A) -> percent_point (both methods) -> fit(B) ->
+    percent_point.  The reference is a FRESH GaussianKDE fitted on the data the instance holds after the second
+    fit (`to_dict()['dataset']`; as found a used instance re-samples B to the size of A, which belongs to C19 and is
+    thereby factored out): the re-fitted instance must not raise, must give the fresh model's answer (bit for bit,
+    or within twice the solver tolerance) and must satisfy the root oracle itself.  The same for the states
+    restored by from_dict, by pickle, and re-created by get_instance, each taken from a USED instance.
+    Returns a list of (class suffix, detail)."""
+    import pickle
+    from copulas.univariate import GaussianKDE
+    from copulas.utils import get_instance
+    out = []
+    u = u64[(u64 > 1e-6) & (u64 < 1 - 1e-6)]
+    inst = GaussianKDE()
+    inst.fit(A)
+    for method in ('chandrupatla', 'bisect'):
+        inst.percent_point(u.copy(), method=method)
+    _seeded(seed, lambda: inst.fit(B))
+    now = np.array(inst.to_dict()['dataset'], dtype=float).ravel()    # (a re-sampled data set is stored 1 x n)
+    fresh = GaussianKDE()
+    fresh.fit(now)
+    lower, upper = (float(v) for v in fresh._get_bounds())
+    states = {'refitted': inst}
+
+    def build(state, make):
+        try:
+            states[state] = make()
+        except Exception as e:  # noqa
+            out.append((f'chandrupatla:depends-on-state:{state}',
+                        {'state': state, 'history': how, 'raises': repr(e)[:200],
+                         'required': 'the state can be built and used like a fresh model'}))
+
+    def clone():
+        c = get_instance(inst)
+        c.fit(now)
+        return c
+
+    def restored_used_refitted():    # restoring must not freeze a bracket either
+        m = pickle.loads(pickle.dumps(fresh))
+        m.percent_point(u.copy())
+        _seeded(seed, lambda: m.fit(A))
+        return m
+    build('from_dict', lambda: GaussianKDE.from_dict(inst.to_dict()))
+    build('pickle', lambda: pickle.loads(pickle.dumps(inst)))
+    build('get_instance-clone', clone)
+    build('restored-then-refitted', restored_used_refitted)
+    for state, model in states.items():
+        ref_model = fresh
+        if state == 'restored-then-refitted':
+            ref_model = GaussianKDE()
+            ref_model.fit(np.array(model.to_dict()['dataset'], dtype=float).ravel())
+        rl, ru = (float(v) for v in ref_model._get_bounds())
+        for method in ('chandrupatla', 'bisect'):
+            tol = (1e-8 if method == 'bisect' else 1e-9 * (ru - rl)) + 8 * EPS * max(1.0, abs(rl), abs(ru))
+            want = np.asarray(ref_model.percent_point(u.copy(), method=method), dtype=float)
+            cls = (f'{method}:depends-on-fit-history' if state in ('refitted', 'restored-then-refitted')
+                   else f'{method}:depends-on-state:{state}')
+            try:
+                got = np.asarray(model.percent_point(u.copy(), method=method), dtype=float)
+            except Exception as e:  # noqa
+                out.append((cls, {'state': state, 'history': how, 'raises': repr(e)[:120], 'method': method,
+                                  'bracket_of_current_data': [rl, ru],
+                                  'required': 'valid probabilities are solved, as by a fresh model on the same data'}))
+                if count:
+                    count(f'kde-history:{how}:{state}:{method}:RAISES')
+                continue
+            same = np.array_equal(got, want)
+            if count:
+                count(f'kde-history:{state}:{method}:' + ('bit-identical' if same else 'differs'))
+            d = np.abs(got - want)
+            if not np.all(d <= 2 * tol):
+                i = int(np.argmax(d))
+                out.append((cls, {'state': state, 'history': how, 'method': method, 'u': float(u[i]),
+                                  'x': float(got[i]), 'fresh_model_x': float(want[i]), 'allowed': 2 * tol,
+                                  'bracket_of_current_data': [rl, ru]}))
+    # and the re-fitted instance is a bracketed root finder in its own right
+    for what, detail in kde_model_oracle(inst, f'refitted({how})', u64, ('float64-array', 'float32-array'), None):
+        out.append((what.replace(':', ':refitted:', 1), dict(detail, history=how)))
+    return out
+
+
 def tie_kde(ctx):
     nprng = ctx.nprng('kde')
     bad = None
+    for j, how in enumerate(HISTORIES):
+        A, B = kde_history_data(nprng, how)
+        u64 = kde_probabilities(nprng, 6)
+        fails = kde_history_oracle(A, B, u64, how, seed=j, count=ctx.count)
+        ctx.case(('kde-history', how, tuple(A.tolist()), tuple(B.tolist())))
+        if fails and bad is None:
+            bad = {'history': how, 'fail': fails[0]}
     for name, data in kde_datasets(nprng).items():
         u64 = kde_probabilities(nprng, 10)
         fails = kde_oracle(name, data, u64, count=ctx.count)
@@ -1226,6 +1358,21 @@ def search(ctx, deep):
                                'every lane of percent_point(U, method) is inside the bracket and within the solver '
                                'tolerance of the root of cdf(x) - U, whatever the representation of U',
                                f'kde.percent_point:{what}')
+    for rep_ in range(4 if deep else 1):
+        for j, how in enumerate(HISTORIES):
+            A, B = kde_history_data(nprng, how)
+            u64 = kde_probabilities(nprng, 40 if deep else 10)
+            fails = kde_history_oracle(A, B, u64, how, seed=j + 10 * rep_, count=ctx.count)
+            checked += 1
+            for what, detail in fails:
+                found += 1
+                ctx.fail_input('GaussianKDE.percent_point',
+                               {'history': ['fit(A)', 'percent_point(U, chandrupatla)', 'percent_point(U, bisect)',
+                                            'fit(B)', 'percent_point(U, method)'], 'how': how, 'A': A.tolist(),
+                                'B': B.tolist(), 'U': u64.tolist(), 'seed': j + 10 * rep_, 'detail': detail}, detail,
+                               'percent_point of a re-fitted / restored / cloned GaussianKDE equals a fresh model '
+                               'fitted on the same data and never rejects valid probabilities',
+                               f'kde.percent_point:{what}')
     ctx.support = {'oracle_checks': checked, 'failures': found, 'deep': deep,
                    'tolerance_misses_outside_property_family(counted only)': misses}
 
@@ -1234,6 +1381,9 @@ def replay(ctx, payload):
     inp = payload.get('input', {})
     cls = payload.get('class', '')
     lanes = [tuple(l) for l in (inp.get('lanes') or [])]
+    if cls.startswith('kde.') and inp.get('A') is not None:
+        return bool(kde_history_oracle(np.array(inp['A']), np.array(inp['B']), np.array(inp['U'], dtype=float),
+                                       inp.get('how', '?'), seed=int(inp.get('seed', 0))))
     if cls.startswith('kde.'):
         data = np.array(inp['dataset'])
         u64 = np.array(inp['U'], dtype=float) if inp.get('U') else np.float32(np.linspace(0.01, 0.99, 25)).astype(float)
